@@ -9,16 +9,17 @@ import sys
 
 ROOT = os.path.dirname(os.path.dirname(os.path.abspath(__file__)))
 p, caught_by, first = sys.argv[1:4]
-strengthened = sys.argv[4] if len(sys.argv) > 4 else None
+strengthened = (sys.argv[4] if len(sys.argv) > 4 else None) or None
+SLOT = os.environ.get("SLOT", "A")   # SLOT=B appends a second change to an existing r4/meta.json
 src = f"/tmp/r4out_{p}"
 d = os.path.join(ROOT, "seeded", p, "r4")
 os.makedirs(d, exist_ok=True)
-shutil.copy(f"{src}/patch.diff", f"{d}/patchA.diff")
-open(f"{d}/demoA.py", "w").write(re.sub(r"/tmp/r4_C[0-9]+", "<worktree>", open(f"{src}/demo.py").read()))
+shutil.copy(f"{src}/patch.diff", f"{d}/patch{SLOT}.diff")
+open(f"{d}/demo{SLOT}.py", "w").write(re.sub(r"/tmp/r4_C[0-9]+", "<worktree>", open(f"{src}/demo.py").read()))
 m = json.load(open(f"{src}/meta.json"))
 prop = [json.loads(l) for l in open(os.path.join(ROOT, "properties.jsonl")) if json.loads(l)["id"] == p][0]
 files = re.findall(r"^diff --git a/(\S+)", open(f"{src}/patch.diff").read(), flags=re.M)
-ch = {"patch": "patchA.diff", "demonstration": "demoA.py", "files": files, "summary": m.get("summary"),
+ch = {"patch": f"patch{SLOT}.diff", "demonstration": f"demo{SLOT}.py", "files": files, "summary": m.get("summary"),
       "needs_to_manifest": m.get("needs"), "agent_ran": m.get("ran"),
       "what_i_ran": {"where": f"scratch worktree /tmp/r4_{p} of /repo HEAD d5909d2 (removed afterwards)",
                      "commands": ["PYTHONPATH=<wt> /venv/bin/python demoA.py (clean tree) -> rc 0", "git apply patchA.diff",
@@ -31,10 +32,13 @@ if strengthened:
 meta = {"property": p, "round": 4, "title": prop["title"],
         "origin": "fresh sub-agent (fourth round) given only the property text and a scratch worktree of /repo; nothing from /verif",
         "changes": [ch]}
+if SLOT != "A" and os.path.exists(f"{d}/meta.json"):
+    meta = json.load(open(f"{d}/meta.json"))
+    meta["changes"] = [c for c in meta["changes"] if c["patch"] != ch["patch"]] + [ch]
 json.dump(meta, open(f"{d}/meta.json", "w"), indent=1)
 tsv = os.path.join(ROOT, "seeded", "RESULTS.tsv")
-lines = [l for l in open(tsv).read().splitlines() if not l.startswith(f"{p}/r4/")]
+lines = [l for l in open(tsv).read().splitlines() if not l.startswith(f"{p}/r4/patch{SLOT}")]
 for ck in caught_by.split(","):
-    lines.append(f"{p}/r4/patchA.diff\t{ck}\tquick\tcaught")
+    lines.append(f"{p}/r4/patch{SLOT}.diff\t{ck}\tquick\tcaught")
 open(tsv, "w").write("\n".join(lines) + "\n")
 print("stored", d)
